@@ -55,7 +55,7 @@ func (e EventJSONs) UntrustedEvents(roomVersion RoomVersion) []PDU {
 		event, err := verImpl.NewEventFromUntrustedJSON(js)
 		switch e := err.(type) {
 		case EventValidationError:
-			if !e.Persistable {
+			if !e.Persistable || event == nil {
 				continue
 			}
 		case nil:
